@@ -78,6 +78,27 @@ def build_gofacts():
         raise RuntimeError("gofacts does not build:\n" + out)
 
 
+def build_go2coq():
+    os.makedirs(BUILD, exist_ok=True)
+    rc, out = sh(["go", "build", "-o", os.path.join(BUILD, "go2coq"), "."],
+                 cwd=os.path.join(VERIF, "tools", "go2coq"), env=go_env(), timeout=300)
+    if rc != 0:
+        raise RuntimeError("go2coq does not build:\n" + out)
+
+
+def regen_generated():
+    """Translator 2: Go functions of /repo -> Gallina definitions coq/theories/Gen/Gen*.v (tools/go2coq; each file is
+    rewritten only when its content changes). A function the translator cannot handle leaves a comment-only file: the
+    agreement proofs importing it then fail, which the check reports as a broken obligation."""
+    exe = os.path.join(BUILD, "go2coq")
+    gdir = os.path.join(VERIF, "tools", "go2coq")
+    newest = max(os.path.getmtime(os.path.join(gdir, n)) for n in os.listdir(gdir))
+    if not os.path.exists(exe) or os.path.getmtime(exe) < newest:
+        build_go2coq()
+    rc, out = sh([exe, REPO, os.path.join(COQ, "theories", "Gen")], timeout=120)
+    return rc, out
+
+
 def regen_facts():
     """Translator: /repo source -> coq/theories/Gen/SourceFacts.v (written only when changed)."""
     exe = os.path.join(BUILD, "gofacts")
@@ -89,6 +110,7 @@ def regen_facts():
     if rc != 0:
         raise RuntimeError("gofacts failed:\n" + out)
     write_if_changed(os.path.join(COQ, "theories", "Gen", "SourceFacts.v"), out)
+    regen_generated()
     return out
 
 
